@@ -749,18 +749,22 @@ def r18_writer_converter_keeps_the_value(ctx):
             n += 1
             v = r.value
 
-            def rooted(e):
+            def rooted(e, depth=0):
                 if isinstance(e, ast.Name):
-                    return e.id == stat
+                    if e.id == stat:
+                        return True
+                    # a local that holds the value to return (`ret = stat.strftime(...); return ret`)
+                    defs_ = [a.value for a in own if isinstance(a, ast.Assign) and any(isinstance(t, ast.Name) and t.id == e.id for t in a.targets)]
+                    return bool(defs_) and depth < 4 and all(rooted(d, depth + 1) for d in defs_)
                 if isinstance(e, ast.IfExp):
-                    return rooted(e.body) and rooted(e.orelse)
+                    return rooted(e.body, depth) and rooted(e.orelse, depth)
                 if isinstance(e, ast.Attribute):
-                    return rooted(e.value)
+                    return rooted(e.value, depth)
                 if isinstance(e, ast.Call):
                     if isinstance(e.func, ast.Attribute):
-                        return rooted(e.func.value)
+                        return rooted(e.func.value, depth)
                     if isinstance(e.func, ast.Name) and e.func.id in ("getattr", "str", "int", "float") and e.args:
-                        return rooted(e.args[0])
+                        return rooted(e.args[0], depth)
                 if isinstance(e, (ast.List, ast.Tuple, ast.ListComp)):
                     return True   # element-wise conversions are judged where the element converter returns
                 return False
